@@ -56,12 +56,15 @@ func StreamCase(kind, cfg int64, base int, wlens, blens []int, w io.Writer, clos
 			closeWrite()
 		}
 	}()
+	// a payload of hundreds of kilobytes read through a buffer of a few bytes is
+	// hundreds of thousands of reads: keep tiny buffers for the first 64 reads only
+	small := 0
 	line := []int64{kind, cfg, int64(len(wlens))}
 	for _, l := range wlens {
 		line = append(line, int64(l))
 	}
 	line = append(line, 0, 0, 1)
-	maxbuf := 1
+	maxbuf := 1024
 	for _, b := range blens {
 		if b > maxbuf {
 			maxbuf = b
@@ -73,6 +76,15 @@ func StreamCase(kind, cfg int64, base int, wlens, blens []int, w io.Writer, clos
 	deadline := time.Now().Add(timeout)
 	for i := 0; i < 2000000; i++ {
 		bl := blens[i%len(blens)]
+		if bl < 512 {
+			small++
+			if small > 64 && total > 4096 {
+				bl = 512 + bl
+				if bl > maxbuf {
+					bl = maxbuf
+				}
+			}
+		}
 		n, err := r.Read(buf[:bl])
 		res, ok := int64(0), int64(1)
 		if n > 0 {
